@@ -110,9 +110,12 @@ func genCase(t *rapid.T, path string, tamper bool) Case {
 			c.Decision = rapid.SampledFrom([]string{"abort", "skip", "overwrite"}).Draw(t, "decision")
 		}
 		if c.Via == "backuper" {
-			// as the CLI drives it: "all" lists every ring; explicit ids come with public or private
+			// as the CLI drives it: --all lists every ring (mode "all", or "private" when --private_keys is given
+			// as well); explicit ids come with public or private
 			if c.Bulk {
-				c.Mode = "all"
+				if c.Mode != "private" {
+					c.Mode = "all"
+				}
 			} else if c.Mode == "all" {
 				c.Mode = "private"
 			}
